@@ -767,7 +767,15 @@ package ion
 //@ func appendTimestamp
 //@ split returns
 //@ light calls
-//@ ensures[C01,C04,C15] len(result) == len(b)+int(timestampLen(offset, utc))
+//@ ensures[C01,C04,C15] utc.precision < TimestampPrecisionMonth || utc.precision > TimestampPrecisionNanosecond ==> len(result) == len(b)+int(timestampLen(offset, utc))
+//@ ensures[C01,C04,C15] utc.precision == TimestampPrecisionMonth ==> len(result) == len(b)+int(timestampLen(offset, utc))
+//@ ensures[C01,C04,C15] utc.precision == TimestampPrecisionDay ==> len(result) == len(b)+int(timestampLen(offset, utc))
+//@ ensures[C01,C04,C15] utc.precision == TimestampPrecisionMinute ==> len(result) == len(b)+int(timestampLen(offset, utc))
+//@ ensures[C01,C04,C15] utc.precision == TimestampPrecisionSecond ==> len(result) == len(b)+int(timestampLen(offset, utc))
+//@ ensures[C01,C04,C15] utc.precision == TimestampPrecisionNanosecond && utc.numFractionalSeconds == 0 ==> len(result) == len(b)+int(timestampLen(offset, utc))
+//@ ensures[C01,C04,C15] utc.precision == TimestampPrecisionNanosecond && utc.numFractionalSeconds > 0 && utc.TruncatedNanoseconds() <= 0 ==> len(result) == len(b)+int(timestampLen(offset, utc))
+//@ ensures[C01,C04,C15] utc.precision == TimestampPrecisionNanosecond && utc.numFractionalSeconds > 0 && utc.TruncatedNanoseconds() > 0 && utc.kind == TimezoneUnspecified ==> len(result) == len(b)+int(timestampLen(offset, utc))
+//@ ensures[C01,C04,C15] utc.precision == TimestampPrecisionNanosecond && utc.numFractionalSeconds > 0 && utc.TruncatedNanoseconds() > 0 && utc.kind != TimezoneUnspecified ==> len(result) == len(b)+int(timestampLen(offset, utc))
 //@ safe[C04]
 
 // ---------------------------------------------------------------------------
